@@ -118,6 +118,7 @@ def build_world() -> World:
     # ------------------------------------------------------------------ tree theory T
     root = z3.Const("root", Node.z)
     w.consts["root"] = Val(Node, (root,))
+    w.self_consts = {"machine": Val(Node, (root,))}      # self.machine is the root of the state tree
     w.fn("anc", [Node, Node], BOOL)          # reflexive-transitive ancestor: anc(n, a) <=> a is n or an ancestor of n
     ax = w.axiom
     ax("T-root", "root != None and root.parent == None and root.depth == 0", "definition")
@@ -128,6 +129,35 @@ def build_world() -> World:
     ax("T-anc-depth", "forall[Node, Node](lambda n, a: implies(anc(n, a), a != None and a.depth <= n.depth and implies(a.depth == n.depth, a == n)), lambda n, a: anc(n, a))", "lean:anc_depth")
     ax("T-anc-trans", "forall[Node, Node, Node](lambda n, a, b: implies(anc(n, a) and anc(a, b), anc(n, b)), lambda n, a, b: (anc(n, a), anc(a, b)))", "lean:anc_trans")
     ax("T-anc-linear", "forall[Node, Node, Node](lambda n, a, b: implies(anc(n, a) and anc(n, b), anc(a, b) or anc(b, a)), lambda n, a, b: (anc(n, a), anc(n, b)))", "lean:anc_linear")
+
+    # child_toward(d, t): the child of d on the path down to t (defined when t is a proper descendant of d)
+    w.fn("child_toward", [Node, Node], Node)
+    ax("T-child-toward", "forall[Node, Node](lambda d, t: implies(anc(t, d) and t != d, child_toward(d, t) != None and child_toward(d, t).parent == d and anc(t, child_toward(d, t))), lambda d, t: child_toward(d, t))",
+       "lean:child_toward_exists")
+
+    # ------------------------------------------------------------------ id theory I
+    # id(root) = key(root), id(n) = id(parent n) + "." + key(n)  (models.py: `self.id = f"{parent.id}.{key}" if parent else key`).
+    # The only consequence the interpreter relies on is the prefix test of _is_descendant / _compute_states_to_exit:
+    #   S2:  id(n).startswith(id(a) + ".")  <=>  a is a PROPER ancestor of n          (needs: no '.' inside state keys)
+    # `idprefix(n, a)` names exactly the term  id(n).startswith(id(a) + ".")  (see str_method_hook: any other
+    # string test - e.g. one that drops the "." - is NOT given this meaning and stays a raw string formula).
+    w.fn("idprefix", [Node, Node], BOOL)
+    ax("I-S2", "forall[Node, Node](lambda n, a: implies(n != None and a != None, idprefix(n, a) == (anc(n, a) and n != a)), lambda n, a: idprefix(n, a))",
+       "assumed under nodot_keys (string induction over the id construction); bounded: validated on every generated machine; dotted keys are a known finding (C12)")
+
+    def str_method_hook(eng, st, recv, name, args):
+        idf = w.classes["Node"].fields["id"].fns[0]
+        if name == "startswith" and len(args) == 1 and isinstance(args[0], Val) and args[0].sort == STR:
+            r, a = recv.z, args[0].z
+            if z3.is_app(r) and r.decl().eq(idf) and z3.is_app(a) and a.decl().kind() == z3.Z3_OP_SEQ_CONCAT and a.num_args() == 2:
+                x, dot = a.arg(0), a.arg(1)
+                if z3.is_app(x) and x.decl().eq(idf) and z3.is_string_value(dot) and dot.as_string() == ".":
+                    n_, a_ = r.arg(0), x.arg(0)
+                    p = w.specfns["idprefix"].fn(n_, a_)
+                    st.assume(p == z3.PrefixOf(a, r))
+                    return vbool(p)
+        return None
+    w.str_method_hook = str_method_hook
 
     w.assume("A-tree: every StateNode value handled by a verified function belongs to the tree of self.machine "
              "(single finite parent-pointer tree rooted at the MachineNode); StateNode.__init__'s recursive "
@@ -164,5 +194,23 @@ def build_world() -> World:
             return [(st, fresh(OPAQUE, "userret"))]
         return None
     w.external_hook = external_hook
+
+    def ctor_hook(eng, node, st, clsname, args, kw):
+        """Constructors of the event classes: a fresh non-null event with the given type."""
+        if clsname in ("Event", "DoneEvent", "AfterEvent"):
+            ev = fresh(Ev, "ev")
+            st.assume(ev.z != Ev.null)
+            flds = w.classes["Event"].fields
+            kind = {"Event": EV_PLAIN, "DoneEvent": EV_DONE, "AfterEvent": EV_AFTER}[clsname]
+            st.assume(flds["kind"].fns[0](ev.z) == kind)
+            t = kw.get("type", args[0] if args else None)
+            if isinstance(t, Val) and t.sort == STR:
+                st.assume(flds["type"].fns[0](ev.z) == t.z)
+            src = kw.get("src", args[2] if len(args) > 2 else None)
+            if isinstance(src, Val) and src.sort == STR:
+                st.assume(flds["src"].fns[0](ev.z) == src.z)
+            return [(st, ev)]
+        return None
+    w.ctor_hook = ctor_hook
     w.external_mods = lambda name: []
     return w
